@@ -45,7 +45,7 @@ enum Class {
 	Auth,
 	/// not authenticated under the current key: must be refused, nothing may change
 	Unauth,
-	/// authenticated ciphertext in an unusual envelope: recorded, nothing asserted
+	/// authenticated ciphertext in an unusual envelope: refused with an error or answered sealed
 	Odd,
 }
 
@@ -783,7 +783,20 @@ impl Session {
 					);
 				}
 			}
-			Class::Init | Class::Odd => {}
+			Class::Odd => {
+				// the ciphertext authenticates under the current key: the handler may refuse the
+				// unusual envelope (plain error), but if it answers the call the answer must be sealed
+				if reply.starts_with("plaintext") || reply == "ok-not-json" || reply == "encrypted-undecryptable" {
+					set_problem(
+						format!("C13/odd-envelope-reply-not-encrypted/{}/{}", e.kind(), reply),
+						format!(
+							"request {} (ciphertext authenticated under the current session key, unusual envelope) was answered with {} — neither an error nor an envelope encrypted under that key",
+							e.id(), reply
+						),
+					);
+				}
+			}
+			Class::Init => {}
 		}
 		// --- client model
 		match e {
